@@ -7,7 +7,7 @@
   item list, fault plan and callback.  `Reachable cfg s` = some label sequence leads from
   `init cfg` to `s`, i.e. every schedule and every timing is covered.
 -/
-import Torf.Lemmas.PipelineInv
+import Torf.Lemmas.PipelineLive
 namespace Torf.C03
 open Torf.Pipeline
 
@@ -25,5 +25,12 @@ theorem C03_no_internal {cfg : Cfg} {s : State} (h : Reachable cfg s) : noIntern
 theorem C03_threads_done {cfg : Cfg} {s : State} (_hwf : wf cfg = true) (hrf : cfg.refuse = [])
     (h : Reachable cfg s) (ht : terminal s = true) : allThreadsDone s = true :=
   (Inv.of_reachable hrf h).threads_done ht
+
+/-- Deadlock freedom: in every reachable state in which main has not returned, some thread can
+    take a progress step (a step that changes the core state; the janitor possibly after the
+    idle steps of its current polling round). -/
+theorem C03_deadlock_free {cfg : Cfg} {s : State} (hwf : wf cfg = true) (hrf : cfg.refuse = [])
+    (h : Reachable cfg s) (ht : terminal s = false) : canProgress cfg s = true :=
+  (Inv.of_reachable hrf h).deadlock_free hwf hrf ht
 
 end Torf.C03
